@@ -28,11 +28,16 @@ vt_proof! { unwind = 12; fn c10_probe_key_scalars() {
     kani::cover!(true, "w:reached_end");
 }}
 
-// @vt prop=C10 tier=quick bound="index probe key vs stored key: TimestampTz, Uuid, MacAddr, Inet4, Inet6, Interval, Enum with arbitrary payload" outside="other variants" timeout=900
-vt_proof! { unwind = 20; fn c10_probe_key_ids_and_intervals() {
-    agree(OwnedValue::TimestampTz(kani::any(), kani::any())); agree(OwnedValue::Uuid(kani::any())); agree(OwnedValue::MacAddr(kani::any()));
-    agree(OwnedValue::Inet4(kani::any())); agree(OwnedValue::Inet6(kani::any())); agree(OwnedValue::Interval(kani::any(), kani::any(), kani::any()));
-    agree(OwnedValue::Enum(kani::any(), kani::any()));
+// @vt prop=C10 tier=quick bound="index probe key vs stored key: TimestampTz, Interval, Enum, MacAddr, Inet4 with arbitrary payload" outside="other variants" timeout=1800 mem=16
+vt_proof! { unwind = 20; fn c10_probe_key_intervals_small_ids() {
+    agree(OwnedValue::TimestampTz(kani::any(), kani::any())); agree(OwnedValue::Interval(kani::any(), kani::any(), kani::any()));
+    agree(OwnedValue::Enum(kani::any(), kani::any())); agree(OwnedValue::MacAddr(kani::any())); agree(OwnedValue::Inet4(kani::any()));
+    kani::cover!(true, "w:reached_end");
+}}
+
+// @vt prop=C10 tier=quick bound="index probe key vs stored key: Uuid, Inet6 (16 arbitrary bytes)" outside="other variants" timeout=1800 mem=16
+vt_proof! { unwind = 20; fn c10_probe_key_uuid_inet6() {
+    agree(OwnedValue::Uuid(kani::any())); agree(OwnedValue::Inet6(kani::any()));
     kani::cover!(true, "w:reached_end");
 }}
 
@@ -56,10 +61,10 @@ fn bytes_case(d: &[u8; 2], n: usize) {
     agree(OwnedValue::Vector(if n == 0 { Vec::new() } else { let mut x = Vec::with_capacity(1); x.push(f); x }));
 }
 
-// @vt prop=C10 tier=quick bound="planner literal encoders: every i64, every f64 bit pattern, every ASCII string of 0..=2 bytes, against encoding::key::encode_{int,float,text}" outside="longer strings; non-ASCII" timeout=900
-vt_proof! { unwind = 14; fn c10_planner_literal_keys_equal_index_keys() {
+// @vt prop=C10 tier=quick bound="planner literal encoders: every i64 and every f64 bit pattern against encoding::key::encode_{int,float}" outside="strings (c10_planner_text_key)" timeout=1800 mem=16
+vt_proof! { unwind = 12; fn c10_planner_number_keys_equal_index_keys() {
     use turdb::sql::planner::encoding::verif_hooks as pl;
-    let arena = core::mem::ManuallyDrop::new(bumpalo::Bump::with_capacity(256));
+    let arena = core::mem::ManuallyDrop::new(bumpalo::Bump::with_capacity(128));
     let i: i64 = kani::any(); let f: f64 = kani::any();
     let mut a = bumpalo::collections::Vec::with_capacity_in(16, &*arena);
     pl::encode_int_to_arena(i, &mut a);
@@ -69,6 +74,14 @@ vt_proof! { unwind = 14; fn c10_planner_literal_keys_equal_index_keys() {
     pl::encode_float_to_arena(f, &mut b);
     let mut w2 = FixBuf::<12>::new(); turdb::encoding::key::encode_float(f, &mut w2);
     assert!(lex_cmp(&b, w2.as_slice()) == Equal, "role=planner_float_key_equals_index_key");
+    kani::cover!(f < 0.0 && i < 0, "w:negative_numbers");
+    core::mem::forget((a, b));
+}}
+
+// @vt prop=C10 tier=thorough bound="planner literal encoder for text: every ASCII string of 0..=2 bytes against encoding::key::encode_text" outside="longer strings; non-ASCII" timeout=2400 mem=24
+vt_proof! { unwind = 12; fn c10_planner_text_key_equals_index_key() {
+    use turdb::sql::planner::encoding::verif_hooks as pl;
+    let arena = core::mem::ManuallyDrop::new(bumpalo::Bump::with_capacity(128));
     let d: [u8; 2] = kani::any(); kani::assume(d[0] < 0x80 && d[1] < 0x80);
     let n: usize = kani::any(); kani::assume(n <= 2);
     let s = unsafe { core::str::from_utf8_unchecked(&d[..n]) };
@@ -76,6 +89,6 @@ vt_proof! { unwind = 14; fn c10_planner_literal_keys_equal_index_keys() {
     pl::encode_text_to_arena(s, &mut c);
     let mut w3 = FixBuf::<12>::new(); turdb::encoding::key::encode_text(s, &mut w3);
     assert!(lex_cmp(&c, w3.as_slice()) == Equal, "role=planner_text_key_equals_index_key");
-    kani::cover!(f < 0.0 && i < 0 && n == 2 && d[0] == 0, "w:negative_numbers_and_nul_byte");
-    core::mem::forget((a, b, c));
+    kani::cover!(n == 2 && d[0] == 0, "w:nul_byte");
+    core::mem::forget(c);
 }}
